@@ -149,7 +149,7 @@ class UniExpr(ExprMixin):
         return "%s %s" % (opnames[self.op], operandtostring(self.operand, str))
 
     def __call__(self, obj, *args):
-        operand = self.operand(obj) if callable(self.operand) else self.operand
+        operand = self.operand(obj, *args) if callable(self.operand) else self.operand
         return self.op(operand)
 
 
@@ -167,8 +167,8 @@ class BinExpr(ExprMixin):
         return "(%s %s %s)" % (operandtostring(self.lhs, str), opnames[self.op], operandtostring(self.rhs, str))
 
     def __call__(self, obj, *args):
-        lhs = self.lhs(obj) if callable(self.lhs) else self.lhs
-        rhs = self.rhs(obj) if callable(self.rhs) else self.rhs
+        lhs = self.lhs(obj, *args) if callable(self.lhs) else self.lhs
+        rhs = self.rhs(obj, *args) if callable(self.rhs) else self.rhs
         return self.op(lhs, rhs)
 
 
@@ -252,7 +252,7 @@ class FuncPath(ExprMixin):
         if self.__operand is None:
             return FuncPath(self.__func, operand) if callable(operand) else operand
         else:
-            return self.__func(self.__operand(operand) if callable(self.__operand) else self.__operand)
+            return self.__func(self.__operand(operand, *args) if callable(self.__operand) else self.__operand)
 
 
 this = Path("this")
